@@ -181,5 +181,61 @@ def mit_ccache_cross(wd, models, images, limit=400):
             "disagreements": len(problems), "first": problems[:3]}
 
 
+def mit_apreq_cross(wd, mitdir, limit=3000):
+    """APExchange (the decision procedure of C01/C03) against MIT's acceptor: the AP-REQs exported by `vh c01 -mitdir` are verified by
+    krb5_rd_req with the same keytab; TLC (TraceMITAP) requires MIT's verdict to equal Accept at the instant MIT looked."""
+    exe = build_mitref()
+    if exe is None:
+        return {"available": False}
+    def comparable(x):
+        c, st = x["case"], x["settings"]
+        if c["kvnoLabel"] == "k258":
+            return False        # MIT's file keytab also matches an entry whose number equals the ticket's modulo 256 (8-bit keytabs); the property asks for equality
+        if c["caddr"] != "none" and st["clientAddr"] != "set":
+            return False        # MIT skips the address test when the application has not told it the sender's address; gokrb5 then refuses
+        return True
+    exported = vlib.read_ndjson(os.path.join(mitdir, "apreqs.ndjson"))
+    lines = [x for x in exported if comparable(x)][:limit]
+    if not lines:
+        return {"available": True, "requests": 0, "disagreements": 0, "first": ""}
+    reqs = []
+    for x in lines:
+        addr = "0a010203" if x["settings"]["clientAddr"] == "set" else "-"
+        reqs.append("rdreq %s %s %s@%s %s" % (os.path.join(mitdir, "kt_%d.keytab" % x["et"]), x["wire"], x["sname"], x["realm"], addr))
+    env = dict(os.environ, KRB5RCACHETYPE="none", KRB5_CONFIG="/dev/null")
+    r = subprocess.run([exe], input="\n".join(reqs) + "\n", capture_output=True, text=True, timeout=1200, env=env)
+    outs = [json.loads(l) for l in r.stdout.splitlines() if l.strip()]
+    if len(outs) != len(reqs):
+        raise vlib.Inconclusive("mitref answered %d of %d rdreq requests: %s" % (len(outs), len(reqs), r.stderr[-500:]))
+    for x, o in zip(lines, outs):
+        x["rc"], x["t0"], x["t1"] = o["rc"], o["t0"], o["t1"]
+        del x["wire"]
+    trace = os.path.join(wd, "trace.ndjson")
+    keep = None
+    if os.path.exists(trace):
+        keep = trace + ".keep"
+        os.rename(trace, keep)
+    try:
+        vlib.write_ndjson(trace, lines)
+        res = vlib.tlc_or_die(wd, "TraceMITAP", timeout=1800)
+        bad = sorted(int(v) for v in res.tags("BADLINE"))
+        if res.distinct != len(lines) + 1:
+            raise vlib.Inconclusive("TraceMITAP: TLC visited %d states, expected %d" % (res.distinct, len(lines) + 1))
+    finally:
+        if keep:
+            os.replace(keep, trace)
+    rcs = {}
+    for x in lines:
+        rcs[x["rc"]] = rcs.get(x["rc"], 0) + 1
+    return {"available": True, "requests": len(lines), "exported_but_not_comparable": len(exported) - len([x for x in exported if comparable(x)]), "accepted_by_mit": rcs.get(0, 0), "mit_error_codes": {str(k): v for k, v in sorted(rcs.items()) if k},
+            "disagreements": len(bad), "first": (json.dumps(lines[bad[0] - 1])[:1200] if bad else ""),
+            "disagreeing_deviations": sorted({json.dumps(sorted((d, lines[i - 1]["case"][d]) for d in lines[i - 1]["case"] if lines[i - 1]["case"][d] != NOMINAL.get(d))) for i in bad})[:40]}
+
+
+NOMINAL = {"sealedBy": "sel", "kvnoLabel": "k2", "realmLabel": "R", "snameLabel": "P", "etLabel": "E", "tktCipher": "intact", "tktUsage": "right", "trailer": "none",
+           "start": "past", "end": "future", "invalid": "no", "caddr": "none", "authKey": "session", "authUsage": "right", "authCipher": "intact", "cname": "match",
+           "crealm": "match", "ctime": "now", "pac": "none"}
+
+
 if __name__ == "__main__":
     print(run_mit_cross(1, 30))
